@@ -125,19 +125,7 @@ Definition corr (c : case) : bool :=
    computed from the reference too *)
 Definition ref_lookup (r : rmap) (k : N) : option nval :=
   match ref_get r k with Some (off, sz) => Some (k, off, sz) | None => None end.
-Definition ref_metric_step (st : rmap * metric) (o : op) : rmap * metric :=
-  let '(r, m) := st in
-  let m' := match o with
-            | Put k _ sz =>
-                let m1 := add_file (maybe_max m k) sz in
-                match ref_get r k with Some (_, os) => if (0 <? os)%Z then add_del m1 os else m1 | None => m1 end
-            | Del k _ =>
-                match ref_get r k with Some (_, os) => if (0 <? os)%Z then add_del m os else m | None => m end
-            | Get _ => m
-            end in
-  (fst (ref_step r o), m').
-Definition ref_metric (ops : list op) : metric := snd (fold_left ref_metric_step ops ([], metric0)).
-
+(* [ref_metric] (model/NeedleMap.v): the counters computed from the reference map *)
 Fixpoint res_gets (l : list res) : list (option nval) :=
   match l with [] => [] | RGet v :: r => v :: res_gets r | _ :: r => res_gets r end.
 
